@@ -157,12 +157,12 @@ def generate(rng, tier):
             h = rng.choice(IDS)
             g.send(a, f"REGISTER {h}{eol}"); g.send(b, f"CONNECT {IDS[(IDS.index(h) + 1) % 3]} {h}{eol}")
             g.ops.append([1, b] + lp(g.data(b, 32 + rng.choice([0, 5000]))))
-            heavy = rng.random() < 0.4
+            heavy = rng.random() < (0.4 if tier != "thorough" else 0.08)      # the model's digest loop is slow: few heavy transfers
             for _ in range(rng.randrange(1, 4)):
                 x = rng.choice([a, b])
                 if rng.random() < 0.35:
                     # the partner does not read while x sends; it reads everything afterwards (one heavy transfer per history at most)
-                    g.ops.append([3, x, (3145728 if tier == "thorough" else 1300000) if heavy else rng.choice([1, 8192, 100000]), rng.randrange(128)])
+                    g.ops.append([3, x, (2200000 if tier == "thorough" else 1300000) if heavy else rng.choice([1, 8192, 100000]), rng.randrange(128)])
                     heavy = False
                 else:
                     g.ops.append([1, x] + lp(g.data(x, rng.choice([4096, 4097, 5000, 70000]))))
